@@ -225,6 +225,8 @@ def c01(ctx):
     ctx.cov["corpus_size"] = len(progs)
     if ctx.tier == "quick":
         sel = pick_strat(progs, 240, ctx.seed, min_per=16, always=SMOKE.get("C01", ()))
+        have = {p["id"] for p in sel}
+        sel += [p for p in progs if p["grp"] == "share" and p["id"] not in have]
         consts = {"DomCap": 216}
     else:
         sim = with_ids(gen.generate_sim("GenSim", 600, 12, 20260925), "sm")
@@ -322,7 +324,7 @@ def c05(ctx):
     ctx.cov["rule"] = ("programs = GenMem latches (both argument orders x value 1 / constant / signal x set,reset as boolean signals, "
                        "comparisons on two inputs, comparisons on one input with disjoint / touching / overlapping thresholds); TLC explores "
                        "ALL input histories of Circuit(BP) x abstract SR/RS latch with the priority named first in the call")
-    mem_check(ctx, ("latch1", "latch2", "latchx", "latchs", "latch2s"), "C05_value", 48)
+    mem_check(ctx, ("latch1", "latch1b", "latch2", "latchx", "latchs", "latch2s"), "C05_value", 60)
 
 
 def ent_progs(prefix):
@@ -387,6 +389,8 @@ def c10(ctx):
     ctx.cov["corpus_size"] = len(sc) + len(bu)
     if ctx.tier == "quick":
         sel = pick_strat(sc, 160, ctx.seed + 2, min_per=10) + pick_strat(bu, 80, ctx.seed + 2, min_per=10)
+        have = {p["id"] for p in sel}
+        sel += [p for p in sc if p["grp"] == "share" and p["id"] not in have]      # the sharing patterns are few and all about this pass
         consts = {"DomCap": 125}
     else:
         sel = sc + bu
@@ -1329,6 +1333,8 @@ def c20(ctx):
     ctx.cov["corpus_size"] = len(progs)
     if ctx.tier == "quick":
         sel = pick(progs, 150, ctx.seed + 1, always=SMOKE.get("C20", ()))
+        have = {p["id"] for p in sel}
+        sel += [p for p in progs if p["grp"] == "share" and p["id"] not in have]     # aliases, shared values: what C20's clauses are about
         consts = {"DomCap": 64}
     else:
         sel = progs
